@@ -558,7 +558,7 @@ Definition check_variables (ls : lexstate) (cmd : list ch) (s : list ch) (ln : Z
             Ok (Some (TValue cmd (Some vs) ln3), s3, ln3, ls')
           else Ok (Some (TValue cmd None 0), s2, ln2, ls)
       | Some _ => Unsupported U_VAR
-      | None => Ok (None, s1, ln1, read_error_cmd ls s1 ln1 cmd)
+      | None => Ok (None, s1, ln1, read_error_cmd ls s1 ln cmd)     (* reported on the line of the word *)
       end.
 
 (* read_command_rhythm: letters with a rhythm definition are replaced by it, "(...)" spans are copied without
